@@ -184,6 +184,7 @@ public:
 		std::lock_guard<Mutex> lockGuard(mutex);
 		EVENTPP_VERIF_POINT("cl.append.cs.w");
 
+		node->counter = getNextCounter();
 		doAppendNode(node);
 
 		return Handle(node);
@@ -196,6 +197,7 @@ public:
 		std::lock_guard<Mutex> lockGuard(mutex);
 		EVENTPP_VERIF_POINT("cl.prepend.cs.w");
 
+		node->counter = getNextCounter();
 		if(head) {
 			node->next = head;
 			head->previous = node;
@@ -223,6 +225,7 @@ public:
 			std::lock_guard<Mutex> lockGuard(mutex);
 			EVENTPP_VERIF_POINT("cl.insert.cs.w");
 
+			node->counter = getNextCounter();
 			// beforeNode may have been removed already but is kept alive by a running
 			// invocation (or was removed after before.lock() above), then append.
 			if(beforeNode->counter != removedCounter) {
@@ -312,13 +315,13 @@ public:
 	void operator() (Args ...args) const
 	{
 		NodePtr node;
+		Counter counter;
 
 		{
 			std::lock_guard<Mutex> lockGuard(mutex);
 			node = head;
+			counter = currentCounter.load(std::memory_order_acquire);
 		}
-
-		const Counter counter = currentCounter.load(std::memory_order_acquire);
 
 		while(node) {
 			if(node->counter != removedCounter && counter >= node->counter) {
@@ -341,14 +344,16 @@ private:
 	bool doForEachIf(F && f) const
 	{
 		NodePtr node;
+		Counter counter;
 
 		{
+			// head and the counter are captured together: the counter only changes
+			// under the mutex, so a wrap-around in progress is never observed.
 			std::lock_guard<Mutex> lockGuard(mutex);
 			EVENTPP_VERIF_POINT("cl.visit.head.r");
 			node = head;
+			counter = currentCounter.load(std::memory_order_acquire);
 		}
-
-		const Counter counter = currentCounter.load(std::memory_order_acquire);
 
 		while(node) {
 			EVENTPP_VERIF_POINT("cl.visit.counter.racy_r");
@@ -413,7 +418,8 @@ private:
 	
 	NodePtr doAllocateNode(const Callback & callback)
 	{
-		return std::make_shared<Node>(callback, getNextCounter());
+		// The generation is assigned by the caller, under the mutex, when the node is linked.
+		return std::make_shared<Node>(callback, removedCounter);
 	}
 	
 	void doFreeNode(NodePtr & node)
@@ -455,17 +461,16 @@ private:
 		node.reset();
 	}
 
+	// Must be called with the mutex held (or while no other thread can reach the object),
+	// so that the wrap-around is atomic to additions and to the start of traversals.
 	Counter getNextCounter()
 	{
 		Counter result = ++currentCounter;;
 		if(result == 0) { // overflow, let's reset all nodes' counters.
-			{
-				std::lock_guard<Mutex> lockGuard(mutex);
-				NodePtr node = head;
-				while(node) {
-					node->counter = 1;
-					node = node->next;
-				}
+			NodePtr node = head;
+			while(node) {
+				node->counter = 1;
+				node = node->next;
 			}
 			result = ++currentCounter;
 		}
